@@ -22,7 +22,7 @@ META = {
              "by content hash"),
     "require": {t: ["calls:calculate", "calls:shortcut", "calls:construct", "calls:walk", "calls:index_method",
                     "cube:ccube", "cube:xcube", "perm:checked", "reuse_other_cube:checked", "class:garbage_under_false",
-                    "reuse_other_rowcount:checked", "repeated_object_in_list:checked", "reuse_zero_dim_cube:checked"]
+                    "reuse_other_rowcount:checked", "repeated_object_in_list:checked", "reuse_zero_dim_cube:checked", "state_on_index_objects:checked"]
                 for t in ("quick", "thorough")},
     "assumptions": ["diagnostic counters (tracing dicts, intersection_data_points) are not part of the result and not compared"],
 }
@@ -285,6 +285,28 @@ def judge(ctx, case):
             return
     if kind == "ccube" and dense:
         index_methods(ctx, case, dims, numpy.random.default_rng(case["pseed"]))
+    if kind == "ccube" and dense and n:
+        # results depend only on the arguments: after cells of a dimension are re-assigned in place, a cube
+        # over the same index objects equals a cube over fresh copies of them (no state hidden on the index)
+        r2 = numpy.random.default_rng(case["pseed"] + 9)
+        d = int(r2.integers(0, len(dims)))
+        a = dense[d]
+        present = numpy.unique(a).tolist()
+        groups = {}
+        for f in r2.choice(a.size, size=min(3, a.size), replace=False):
+            cell = tuple(int(i) for i in numpy.unravel_index(int(f), a.shape))
+            groups.setdefault((int(present[int(r2.integers(0, len(present)))]),) + cell[1:], []).append(cell[0])
+        dims[d].update({k: numpy.array(sorted(set(v)), dtype=numpy.uint32) for k, v in groups.items()})
+        f1 = [make_func(kind, agg, inp, fn.return_missing_as)[0] for agg, inp, fn in zip(case["aggs"], case["inputs"], funcs)]
+        f2 = [make_func(kind, agg, inp, fn.return_missing_as)[0] for agg, inp, fn in zip(case["aggs"], case["inputs"], funcs)]
+        got = cls(dims, interacting_shape=shp).calculate(f1)
+        want = cls([x.copy() for x in dims], interacting_shape=shp).calculate(f2)
+        ctx.count("state_on_index_objects:checked")
+        if not all(same(a_, b_) for a_, b_ in zip(got, want)):
+            ctx.violation("hidden-state-on-index:%s" % feat,
+                          "after an in-place update of dimension %d, a cube over the same index objects differs from a cube over "
+                          "copies of them" % d, case)
+            return
     if ctx.evals % 53 == 1:
         ctx.sample({"kind": kind, "aggs": case["aggs"], "dense_shapes": [list(d.shape) for d in dense],
                     "first_fact": case["inputs"][0]["fact"]["values"], "first_fact_validity": case["inputs"][0]["fact"]["validity"]})
@@ -343,6 +365,8 @@ def index_methods(ctx, case, dims, rng):
         vals = sorted({c[0] for c in x} | {x.common})
         mask = rng.random(n) < 0.5
         mapping = {v: (v + 1) % 3 for v in vals}
+        if rng.random() < 0.5:
+            mapping.pop(x.common, None)          # a mapping that does not mention the common value
         prec = list(vals)[::-1]
         w.add("mask", mask)
         w.add("mapping", mapping)
